@@ -7,7 +7,7 @@ props="$*"
 scratch=$(mktemp -d /dev/shm/mutsrc.XXXXXX)
 mkdir -p "$scratch/repo"
 cp -r /repo/src "$scratch/repo/src"
-( cd "$scratch/repo" && patch -p1 -s < "$patch" ) || { echo "PATCH FAILED"; rm -rf "$scratch"; exit 3; }
+( p=$(realpath "$patch"); cd "$scratch/repo" && patch -p1 -s < "$p" ) || { echo "PATCH FAILED"; rm -rf "$scratch"; exit 3; }
 caught=""
 for p in $props; do
   out=$(VERIF_EVIDENCE_DIR="$scratch/ev" VERIF_REPLAY_DIR="${KEEP_REPLAYS:-$scratch/replays}" VERIF_REPO_SRC="$scratch/repo/src" VERIF_MIN_BUDGET_S=${VERIF_MIN_BUDGET_S:-3} VERIF_MAX_REPORT=3 ./check $p ${TIER:+--tier $TIER} 2>&1); rc=$?
